@@ -70,6 +70,7 @@ type Exec struct {
 	initRun  map[*ssa.Package]bool
 	lenBounds map[int]int64
 	exactFromHex bool
+	initPkg  *ssa.Package
 	onceDone map[*Cell]bool
 	syncMaps map[*Cell]*MapV
 	namePrefix string
@@ -486,8 +487,13 @@ func (e *Exec) callFunc(fn *ssa.Function, args []Value) Value {
 		}
 		e.fail("unmodelled external function %s", name)
 	}
-	if e.inInit && fn.Pkg != nil && !e.W.isRepoPkg(fn.Pkg) && !e.W.runFromSource(name) {
+	if e.inInit && !e.W.allowedSource(fn) {
 		return e.zeroResult(fn.Signature)
+	}
+	if e.inInit && fn.Pkg != nil && fn.Pkg != e.initPkg && (fn.Name() == "init" || strings.HasPrefix(fn.Name(), "init#")) {
+		// initialisers of imported packages are not chained: each package is initialised lazily when
+		// one of its own package-level variables is first touched
+		return nil
 	}
 	if !e.inInit && !e.W.allowedSource(fn) {
 		e.fail("unmodelled external function %s", name)
@@ -814,14 +820,16 @@ func (e *Exec) lenientInstr(fr *Frame, ins ssa.Instruction) (handled bool) {
 	defer func() {
 		if r := recover(); r != nil {
 			switch r.(type) {
-			case engineErr, goPanic:
+			case pathEnd:
+				panic(r)
+			default:
+				// anything an initialiser call trips over (unsupported construct, Go panic, or an
+				// internal engine error on code the engine was not written for) skips that call
 				e.depth, e.frame = depth, frame
 				e.callStack = e.callStack[:stack]
 				e.initNotes = append(e.initNotes, fmt.Sprintf("initialiser call skipped in %s: %v", fr.fn, r))
 				fr.locals[call] = e.zeroSafe(call.Type())
 				handled = true
-			default:
-				panic(r)
 			}
 		}
 	}()
